@@ -152,6 +152,8 @@ structure Inter where
   params : List String
   /-- ITP: the `#ifdef`/`#ifndef` condition and tag in force (`{condition: tag}`) -/
   pmeta : Option (String × String) := none
+  /-- FF: `meta` = the line's own trailing dictionary over the section-wide `#meta` attributes -/
+  imeta : Attrs := []
   deriving Repr, DecidableEq, Inhabited
 
 structure Ctx where
@@ -160,6 +162,8 @@ structure Ctx where
   inters : List Inter := []
   removed : List Inter := []
   allNodes : Attrs := []
+  /-- `_apply_to_all_interactions[section]`, filled by `#meta` lines -/
+  allInter : List (String × Attrs) := []
   /-- ITP: `current_atom_names` -/
   snapshot : List String := []
   deriving Repr, Inhabited
@@ -202,18 +206,21 @@ def atomsWithAttrs (natoms : Option Nat) (check : Bool) (toks : List String) :
     | some tok => (parseAttrs tok).map fun pa => (r, pa)
   pure (atoms', rest)
 
+/-- `json.loads` of a dictionary token, values as they are (no `Choice`) -/
+def parseMetaDict (tok : String) : Option Attrs :=
+  match Json.parse tok with
+  | .ok (.obj kv) => some (kv.toList.map fun (k, v) => (k, toJVal v))
+  | _ => none
+
 /-- the tail of `_base_parser`: optional trailing meta dictionary, parameters -/
-def paramsOf (rest : List String) : Option (List String) :=
-  let ps := match rest.getLast? with
+def paramsOf (rest : List String) : Option (List String × Attrs) :=
+  let ps : Option (List String × Attrs) := match rest.getLast? with
     | some l =>
-      if startsWithBrace l then
-        match Json.parse l with
-        | .ok _ => some rest.dropLast
-        | .error _ => none
-      else some rest
-    | none => some []
+      if startsWithBrace l then (parseMetaDict l).map fun m => (rest.dropLast, m)
+      else some (rest, [])
+    | none => some ([], [])
   match ps with
-  | some l => if l.all paramOk then some l else none
+  | some (l, m) => if l.all paramOk then some (l, m) else none
   | none => none
 
 /-- `_treat_block_interaction_atoms` (python list indexing: index 0 is the last atom) -/
@@ -247,22 +254,36 @@ def linkAtoms (c : Ctx) : List (String × Attrs) → Option (Ctx × List String)
 def isMeta (toks : List String) : Bool := toks.head? = some "#meta"
 
 /-- `_parse_meta` -/
-def metaOk (toks : List String) : Bool :=
+def metaOf (toks : List String) : Option Attrs :=
   match toks with
-  | [_, d] => match Json.parse d with | .ok (.obj _) => true | _ => false
-  | _ => false
+  | [_, d] => parseMetaDict d
+  | _ => none
+
+def sectionMeta (c : Ctx) (sect : String) : Attrs :=
+  ((c.allInter.find? (fun e => e.1 = sect)).map (·.2)).getD []
 
 def stripBangS (s : String) : String × Bool :=
   match s.toList with
   | '!' :: r => (String.ofList r, true)
   | _ => (s, false)
 
-/-- `_interactions` / `_dih_interactions` on a block or link/modification context -/
-def interactionLine (natomsTab : List (String × Nat)) (kind : Kind) (dih : Bool) (sectRaw : String)
+/-- `_dih_interactions`: dihedrals whose first parameter is '2' are moved to the end of `impropers` -/
+def dihMove (c : Ctx) : Ctx :=
+  let moved := c.inters.filter (fun it => it.sect = "dihedrals" && it.params.head? = some "2")
+  let kept := c.inters.filter (fun it => !(it.sect = "dihedrals" && it.params.head? = some "2"))
+  { c with inters := kept ++ moved.map (fun it => { it with sect := "impropers" }) }
+
+/-- the common part of `_interactions` / `_dih_interactions`: a `#meta` line or `_base_parser` -/
+def interactionCore (natomsTab : List (String × Nat)) (kind : Kind) (sectRaw : String)
     (line : String) (c : Ctx) : Option Ctx := do
   let toks ← tokenizeS line
   let (sect, delete) := stripBangS sectRaw
-  let c1 ← if isMeta toks then (if metaOk toks then some c else none) else do
+  if isMeta toks then
+    -- `context._apply_to_all_interactions[section].update(attributes)`
+    match metaOf toks with
+    | none => none
+    | some m => some { c with allInter := dictSet c.allInter sect (attrsUpdate (sectionMeta c sect) m) }
+  else do
     if kind != .link && delete then none
     let (atoms, rest) ← atomsWithAttrs (natomsOf natomsTab sect) true toks
     let (c', refs) ← match kind with
@@ -270,16 +291,17 @@ def interactionLine (natomsTab : List (String × Nat)) (kind : Kind) (dih : Bool
         let refs ← atoms.mapM fun a => blockRef c a.1
         pure (c, refs)
       | _ => linkAtoms c atoms
-    let params ← paramsOf rest
-    let it : Inter := { sect := sect, atoms := refs, params := params }
+    let (params, lineMeta) ← paramsOf rest
+    -- `dict(ChainMap(meta, apply_to_all_interactions))`: the line's own value wins
+    let it : Inter := { sect := sect, atoms := refs, params := params,
+                        imeta := attrsUpdate (sectionMeta c sect) lineMeta }
     if delete then pure { c' with removed := c'.removed ++ [it] }
     else pure { c' with inters := c'.inters ++ [it] }
-  if dih then
-    -- dihedrals whose first parameter is '2' are moved to the end of `impropers`
-    let moved := c1.inters.filter (fun it => it.sect = "dihedrals" && it.params.head? = some "2")
-    let kept := c1.inters.filter (fun it => !(it.sect = "dihedrals" && it.params.head? = some "2"))
-    pure { c1 with inters := kept ++ moved.map (fun it => { it with sect := "impropers" }) }
-  else pure c1
+
+/-- `_interactions` / `_dih_interactions` on a block or link/modification context -/
+def interactionLine (natomsTab : List (String × Nat)) (kind : Kind) (dih : Bool) (sectRaw : String)
+    (line : String) (c : Ctx) : Option Ctx :=
+  (interactionCore natomsTab kind sectRaw line c).map fun c1 => if dih then dihMove c1 else c1
 
 /-- `_parse_link_atom` -/
 def linkAtomLine (defaults : Attrs) (line : String) (c : Ctx) : Option Ctx := do
